@@ -343,7 +343,7 @@ def execute(sc):
             r = c08.run_pt(sc["pt"], sc["sched"], canonical=False)
             c = rctx.get()
             for v in r["violations"]:
-                if v["invariant"] in ("advance.equal", "liveness.deadlock", "liveness.stepcap", "op.raised", "worker.died"):
+                if v["invariant"] in ("advance.equal", "liveness.deadlock", "liveness.stepcap", "op.raised", "worker.died", "timed.progress"):
                     _viol(V, "pt_timed." + v["invariant"], v["detail"])
             for budget, elapsed in r.get("timed_ops", []):
                 stats["op_pt_run_for"] += 1
